@@ -74,6 +74,9 @@ func typeName(t types.Type) string {
 	case *types.Array:
 		return fmt.Sprintf("[%d]%s", t.Len(), typeName(t.Elem()))
 	case *types.Basic:
+		if t.Kind() != types.Invalid && t.Kind() < types.UntypedBool {
+			return types.Typ[t.Kind()].Name() // byte -> uint8, rune -> int32: one name per type
+		}
 		return t.Name()
 	}
 	return types.TypeString(t, func(p *types.Package) string { return p.Name() })
